@@ -287,6 +287,10 @@ def method(kind):
     if kind not in _METHODS:
         if kind == "group":
             _METHODS[kind] = SqlMethod("SELECT n, count(*) AS cnt FROM t", group_by="n", order_by="n")
+        elif kind == "nested":
+            _METHODS[kind] = SqlMethod(
+                "SELECT t.id AS id, t.n AS n, t.s AS s FROM t "
+                "LEFT JOIN (SELECT id AS uid FROM t WHERE n = 1) AS u ON u.uid = t.id", order_by="id")
         elif kind == "count":
             # an aggregate without GROUP BY always gives exactly one row
             _METHODS[kind] = SqlMethod("SELECT count(*) AS cnt, max(id) AS top FROM t")
@@ -385,10 +389,20 @@ def run_case(ctx, rng):
                 ctx.violation("grouped-result-differs", {"got": got, "expected": want, "stmt": conn.log[-1]}, case)
         else:
             m = method("rows") if rng.random() < 0.8 else SqlMethod("SELECT id, n, s FROM t", order_by="id")
+            if rng.random() < 0.15:
+                # the select text itself has a nested select with a WHERE of its own (same rows: a left join
+                # on a unique column)
+                m = method("nested")
+                ctx.count("queries_on_a_select_with_a_nested_where")
             if mode in ("one", "one_or_none"):
                 ctx.count("one_row_semantics_checked")
+                scalar = rng.random() < 0.3      # the single row may be asked for as a scalar (id 0 is falsy)
+                if scalar:
+                    call_kw['_as_scalars'] = True
                 try:
                     rec = getattr(m, mode)(conn, *args, **call_kw)
+                    if rec is not None and scalar:
+                        rec = (rec,)
                     if len(exp) > 1 or (mode == "one" and not exp):
                         ctx.violation("one-row-method-does-not-raise", {"mode": mode, "rows": len(exp)}, case)
                     elif (rec is None) != (not exp) or (rec is not None and rec[0] != exp[0]):
